@@ -23,38 +23,32 @@ namespace Ft
 
 /-! ## Two-finger and skip-ahead -/
 
-/-- **Two-finger, any batching (partial).**  Whatever the grouping of the fibers into
-    `addTraces` calls (fiber by fiber, one shot, mixed, with calls that receive nothing in
-    between or at the end), the total is the number of comparison steps of a two-finger merge
-    of each fiber's two coordinate lists (before either is exhausted), summed over the fibers:
-    no comparison spans two fibers.  Operands may be empty, disjoint, interleaved, identical;
-    inside one call the outer-loop points ascend.  PROVIDED the first call is not made before
-    the first intersection has run: on an empty first trace the code raises IndexError
-    (`twoFinger_emptyFirstCall_counterexample`). -/
-theorem twoFinger_batched_partial (n : Nat) (groups : List (List FiberIn))
+/-- **Two-finger, any batching.**  Whatever the grouping of the fibers into `addTraces`
+    calls (fiber by fiber, one shot, mixed, with calls that receive nothing before the first,
+    between two, or after the last intersection), the total is the number of comparison steps
+    of a two-finger merge of each fiber's two coordinate lists (before either is exhausted),
+    summed over the fibers: no comparison spans two fibers.  Operands may be empty, disjoint,
+    interleaved, identical; inside one call the outer-loop points ascend. -/
+theorem twoFinger_batched (n : Nat) (groups : List (List FiberIn))
     (hshape : ∀ g ∈ groups, ∀ f ∈ g, f.oi.length + 1 = n ∧ f.pre.length + 1 = n)
-    (hasc : ∀ g ∈ groups, ascPre g = true)
-    (hfirst : groups.head? ≠ some []) :
+    (hasc : ∀ g ∈ groups, ascPre g = true) :
     tfTotal (batchesOf n groups) = some (tfSpecAll groups.flatten : Int) :=
-  tfTotal_batches n groups (fun g hg => ⟨hshape g hg, hasc g hg⟩) hfirst
+  tfTotal_batches n groups (fun g hg => ⟨hshape g hg, hasc g hg⟩)
 
-/-- **Skip-ahead, any batching** (empty calls anywhere, also before the first intersection):
-    maximal same-side runs plus matches of every fiber's merge. -/
+/-- **Skip-ahead, any batching** (empty calls anywhere): maximal same-side runs plus matches
+    of every fiber's merge. -/
 theorem skipAhead_batched (n : Nat) (groups : List (List FiberIn))
     (hshape : ∀ g ∈ groups, ∀ f ∈ g, f.oi.length + 1 = n ∧ f.pre.length + 1 = n)
     (hasc : ∀ g ∈ groups, ascPre g = true) :
     saTotal (batchesOf n groups) = some (saSpecAll groups.flatten : Int) :=
   saTotal_batches n groups (fun g hg => ⟨hshape g hg, hasc g hg⟩)
 
-theorem singletons_head (fs : List FiberIn) : (fs.map (fun f => [f])).head? ≠ some [] := by
-  cases fs <;> simp
-
 /-- **Two-finger, fed fiber by fiber** (no condition on the outer points: they may even be
     equal, as when the same pair is intersected repeatedly without an outer rank). -/
 theorem twoFinger_spec (n : Nat) (fs : List FiberIn)
     (hshape : ∀ f ∈ fs, f.oi.length + 1 = n ∧ f.pre.length + 1 = n) :
     tfTotal (batchesOf n (fs.map (fun f => [f]))) = some (tfSpecAll fs : Int) := by
-  have := tfTotal_batches n _ (singletons_ok n fs hshape) (singletons_head fs)
+  have := tfTotal_batches n _ (singletons_ok n fs hshape)
   rwa [flatten_singletons] at this
 
 /-- **Skip-ahead, fed fiber by fiber**: maximal same-side runs plus matches. -/
@@ -67,59 +61,37 @@ theorem skipAhead_spec (n : Nat) (fs : List FiberIn)
 /-! ## Leader-follower -/
 
 /-- **Leader-follower**: fed the leader trace of leader-follower intersections, in any
-    batching (calls that receive nothing included, also before the first intersection: the
-    running total is then -1 until the header arrives), the total is the number of elements
-    the leader presented.  Domain: the calls together cover at least one intersection (with
-    none at all there is no header and nothing to report on). -/
-theorem c19_leaderFollower_spec (n : Nat) (groups : List (List FiberIn))
-    (hsome : groups = [] ∨ groups.all List.isEmpty = false) :
+    batching (calls that receive nothing included, anywhere — even if no intersection ever
+    runs), the total is the number of elements the leader presented. -/
+theorem c19_leaderFollower_spec (n : Nat) (groups : List (List FiberIn)) :
     lfTotal (leaderBatchesOf n groups) = (lfSpecAll groups.flatten : Int) :=
-  lfTotal_leader n groups hsome
+  lfTotal_leader n groups
 
 /-- … and for any trace at all (e.g. an `intersect_i` trace of `a & b`, as the test-suite
     feeds it) the total is the number of rows behind the header, however the rows are
-    distributed over the calls (empty calls included). -/
-theorem leaderFollower_rows (b : List TRow) (r : List (List TRow)) :
-    lfTotal (b :: r) = (((b :: r).map List.length).sum : Nat) - 1 :=
-  lfTotal_cons b r
+    distributed over the calls (empty calls included; 0 as long as no row has arrived). -/
+theorem leaderFollower_rows (bs : List (List TRow)) :
+    lfTotal bs = ((bs.map List.length).sum : Nat) - (if bs.all List.isEmpty then (0 : Int) else 1) :=
+  lfTotal_rows bs
 
 /-! ## Batching -/
 
-/-- **Batching is irrelevant** for the skip-ahead and the leader-follower model: any two
-    groupings of the same fibers into calls — empty calls anywhere — give the same totals
-    (`GroupsOk n g`: every fiber has rows of `n` loop ranks and inside each call the outer
-    points ascend). -/
+/-- **Batching is irrelevant**: any two groupings of the same fibers into calls — empty calls
+    anywhere — give the same totals for all three models (`GroupsOk n g`: every fiber has rows
+    of `n` loop ranks and inside each call the outer points ascend). -/
 theorem batching_irrelevant (n : Nat) (g1 g2 : List (List FiberIn))
-    (hsame : g1.flatten = g2.flatten) (hsome : g1.flatten ≠ [])
+    (hsame : g1.flatten = g2.flatten)
     (h1 : GroupsOk n g1) (h2 : GroupsOk n g2) :
+    tfTotal (batchesOf n g1) = tfTotal (batchesOf n g2) ∧
     saTotal (batchesOf n g1) = saTotal (batchesOf n g2) ∧
     lfTotal (leaderBatchesOf n g1) = lfTotal (leaderBatchesOf n g2) := by
-  have hall : ∀ g : List (List FiberIn), g.flatten ≠ [] → (g = [] ∨ g.all List.isEmpty = false) := by
-    intro g hg
-    right
-    apply Classical.byContradiction
-    intro hne
-    apply hg
-    have : g.all List.isEmpty = true := by simpa using hne
-    rw [List.all_eq_true] at this
-    rw [List.flatten_eq_nil_iff]
-    intro l hl
-    exact List.isEmpty_iff.1 (this l hl)
-  refine ⟨?_, ?_⟩
+  refine ⟨?_, ?_, ?_⟩
+  · rw [tfTotal_batches n g1 h1, tfTotal_batches n g2 h2, hsame]
   · rw [saTotal_batches n g1 h1, saTotal_batches n g2 h2, hsame]
-  · rw [lfTotal_leader n g1 (hall g1 hsome), lfTotal_leader n g2 (hall g2 (hsame ▸ hsome)), hsame]
-
-/-- … and for the two-finger model between groupings whose first call is not empty (partial,
-    see `twoFinger_batched_partial`) -/
-theorem twoFinger_batching_irrelevant_partial (n : Nat) (g1 g2 : List (List FiberIn))
-    (hsame : g1.flatten = g2.flatten)
-    (h1 : GroupsOk n g1) (h2 : GroupsOk n g2)
-    (hf1 : g1.head? ≠ some []) (hf2 : g2.head? ≠ some []) :
-    tfTotal (batchesOf n g1) = tfTotal (batchesOf n g2) := by
-  rw [tfTotal_batches n g1 h1 hf1, tfTotal_batches n g2 h2 hf2, hsame]
+  · rw [lfTotal_leader, lfTotal_leader, hsame]
 
 /-- in particular one shot = fiber by fiber -/
-theorem oneShot_eq_fiberByFiber (n : Nat) (fs : List FiberIn) (hne : fs ≠ [])
+theorem oneShot_eq_fiberByFiber (n : Nat) (fs : List FiberIn)
     (hshape : ∀ f ∈ fs, f.oi.length + 1 = n ∧ f.pre.length + 1 = n) (hasc : ascPre fs = true) :
     tfTotal (batchesOf n [fs]) = tfTotal (batchesOf n (fs.map (fun f => [f]))) ∧
     saTotal (batchesOf n [fs]) = saTotal (batchesOf n (fs.map (fun f => [f]))) := by
@@ -130,12 +102,7 @@ theorem oneShot_eq_fiberByFiber (n : Nat) (fs : List FiberIn) (hne : fs ≠ [])
   have h2 := singletons_ok n fs hshape
   have hs : [fs].flatten = (fs.map (fun f => [f])).flatten := by
     rw [flatten_singletons]; simp
-  have hflat : [fs].flatten ≠ [] := by simpa using hne
-  refine ⟨twoFinger_batching_irrelevant_partial n _ _ hs h1 h2 ?_ (singletons_head fs),
-    (batching_irrelevant n _ _ hs hflat h1 h2).1⟩
-  cases fs with
-  | nil => exact absurd rfl hne
-  | cons f r => simp
+  exact ⟨(batching_irrelevant n _ _ hs h1 h2).1, (batching_irrelevant n _ _ hs h1 h2).2.1⟩
 
 /-! ## Non-vacuity, and the former counterexamples (DESIGN §7 #14, repaired) -/
 
@@ -157,18 +124,22 @@ example :
   · simp [wit, saTotal, batchesOf, groupRows, FiberIn.rows, andUses, mkRows, feed2, saAdd, startPts,
       TRow.point, TRow.len, saLoop, c19_lexLt, endOf, fiberOf, List.zipIdx]
 
-/-- **The unrestricted two-finger claim fails for the code as it is**: a call made before the
-    first intersection (empty traces, e.g. feeding at the top of every outer iteration) raises
-    IndexError in `trace0[0]`; the skip-ahead and leader-follower models take it in their stride -/
-theorem twoFinger_emptyFirstCall_counterexample :
-    tfTotal (batchesOf 2 ([] :: [wit])) = none ∧
-    saTotal (batchesOf 2 ([] :: [wit])) = some 2 ∧
-    lfTotal (leaderBatchesOf 2 ([] :: [wit] ++ [[]])) = 2 := by
-  refine ⟨?_, ?_, ?_⟩
-  · simp [wit, tfTotal, batchesOf, feed2, tfAdd]
+/-- calls made before the first intersection (empty traces, e.g. feeding at the top of every
+    outer iteration) and after the last one: all three models report the fiber-by-fiber totals
+    (before the repair the two-finger model raised IndexError and the leader-follower total was
+    -1 until the header arrived) -/
+example :
+    tfTotal (batchesOf 2 ([] :: [wit] ++ [[]])) = some 2 ∧
+    saTotal (batchesOf 2 ([] :: [wit] ++ [[]])) = some 2 ∧
+    lfTotal (leaderBatchesOf 2 ([] :: [wit] ++ [[]])) = 2 ∧
+    lfTotal (leaderBatchesOf 2 [[], []]) = 0 := by
+  refine ⟨?_, ?_, ?_, ?_⟩
+  · simp [wit, tfTotal, batchesOf, groupRows, FiberIn.rows, andUses, mkRows, feed2, tfAdd, startPts,
+      TRow.point, TRow.len, tfLoop, c19_lexLt, endOf, List.zipIdx]
   · simp [wit, saTotal, batchesOf, groupRows, FiberIn.rows, andUses, mkRows, feed2, saAdd, startPts,
       TRow.point, TRow.len, saLoop, c19_lexLt, endOf, fiberOf, List.zipIdx]
   · simp [wit, lfTotal, leaderBatchesOf, FiberIn.leaderRows, mkRows, lfAdd, List.zipIdx]
+  · simp [lfTotal, leaderBatchesOf, lfAdd]
 
 /-- a fiber with exactly one empty operand in front of another one (before the repair: the
     call raised) -/
@@ -197,11 +168,8 @@ example : GroupsOk 2 exGroups ∧ GroupsOk 2 (exGroups.flatten.map (fun f => [f]
   · exact ⟨by simp [ShapeOk], by simp [ascPre, c19_lexLt]⟩
   · exact ⟨by simp [ShapeOk], by simp [ascPre]⟩
 
-/-- groupings with calls that receive nothing (in between, at the end; for skip-ahead and
-    leader-follower also before the first intersection) satisfy the hypotheses -/
-example : GroupsOk 2 ([] :: exGroups ++ [[]]) ∧ (exGroups ++ [[]]).head? ≠ some [] ∧
-    (([] : List FiberIn) :: exGroups ++ [[]]).all List.isEmpty = false := by
-  refine ⟨?_, by simp [exGroups], by simp [exGroups]⟩
+/-- groupings with calls that receive nothing (before, in between, at the end) satisfy the hypotheses -/
+example : GroupsOk 2 ([] :: exGroups ++ [[]]) := by
   intro g hg
   simp only [exGroups, List.cons_append, List.nil_append, List.mem_cons, List.not_mem_nil, or_false] at hg
   rcases hg with rfl | rfl | rfl | rfl
